@@ -12,6 +12,9 @@ def run(ctx):
     from vf.pyvc import crosscheck_sym
 
     crosscheck_sym.guard(ctx)  # the symbolic-shape tensor layer against real torch, before the clause that rests on it
+    from contracts import wrap_vc
+
+    api.run_vcs(ctx, [wrap_vc.method_vc("C06.P.method_forwards_parameters", "LookupLanguageModel")], {"C06.P.method_forwards_parameters": "real LookupLanguageModel.calc_idx_log_probs source: the descent is called once with the history, the index, the four buffers and sos / vocab_size / max_ngram / max_ngram_nodes / max_direct_descendants each under its own parameter (V, N, G, S), and its result is returned with the state unchanged"})
     api.run_vcs(ctx, C06_vc.p_vcs(ctx), {"C06.P.descent_is_katz_on_the_view": "real _lookup_calc_idx_log_probs source for a SYMBOLIC order, batch, vocabulary, history (one history index for the batch, or one per batch element) and ANY well-formed flat trie: result = the back-off recursion over the trie's abstract view (loop invariant over the descent)"})
     api.run_vcs(ctx, C06_vc.vcs(ctx), {"C06.S.descent_is_backoff_recursion": "real _lookup_calc_idx_log_probs source over buffers built by the real _build_trie: next-token log-probabilities = the back-off recursion on the table, for all listed log-probabilities (finite or -inf) and back-off weights"},
                 bounded="table structures: V=2 (3 in the thorough tier), start symbol inside / outside the vocabulary, orders 2-3, every subset of bigrams resp. sampled subsets of higher-order n-grams (missing suffixes included); every history of length 0..N")
